@@ -61,7 +61,7 @@ def errName : ErrKind → String
   | .macroNotTop => "macroNotTop" | .snippetNotTop => "snippetNotTop" | .snippetArgs => "snippetArgs"
   | .macroAsName => "macroAsName" | .macroMultiInString => "macroMultiInString"
   | .unexpectedEOF => "unexpectedEOF" | .importLimit => "importLimit" | .importArgs => "importArgs"
-  | .unknownImport => "unknownImport"
+  | .unknownImport => "unknownImport" | .importNodes => "importNodes"
 
 mutual
 partial def showNode : Node → List String → List String
